@@ -37,6 +37,9 @@ OpsOf(cid, sel) == IF cid = "none" \/ cid \notin DOMAIN Programs THEN <<>>
 (*   cons the observation was consistent with the program so far           *)
 Res(w, st, j, cons) == [w |-> w, st |-> st, j |-> j, cons |-> cons]
 
+(* x/bank refuses to credit module accounts (blocked addresses): the StateDB panics *)
+Blocked(w, a) == Kind(w, a) = "module"
+
 DoSstore(w, self, s, v) ==
   LET cur == Slot(w, self, s)
       orig == Get(Get(w.orig, self, EmptyFn), s, 0)
@@ -86,11 +89,13 @@ ExecOps(w, fc, ops, i, outs, j) ==
       [] o.op = "LOG"     -> IF fc.ro THEN Res(w, "writeprot", j, TRUE)
                              ELSE ExecOps(DoLog(w, fc.self, o.n), fc, ops, i + 1, outs, j)
       [] o.op = "SELFDESTRUCT" -> IF fc.ro THEN Res(w, "writeprot", j, TRUE)
+                             ELSE IF Bal(w, fc.self) > 0 /\ Blocked(w, o.to) THEN Res(w, "panic", j, TRUE)
                              ELSE Res(DoSelfdestruct(w, fc.self, o.to), "ok", j, TRUE)
       [] o.op = "CALL" ->
            IF o.kind = "CALL" /\ o.value > 0 /\ fc.ro THEN Res(w, "writeprot", j, TRUE)
            ELSE IF o.kind \in {"CALL", "CALLCODE"} /\ o.value > Bal(w, fc.self)
                 THEN ExecOps(w, fc, ops, i + 1, outs, j)          \* insufficient balance: no frame, caller goes on
+           ELSE IF o.kind = "CALL" /\ o.value > 0 /\ Blocked(w, o.to) THEN Res(w, "panic", j, TRUE)   \* bank refuses: engine failure
            ELSE IF j > Len(outs) THEN Res(w, "ok", j, FALSE)       \* the observation lacks this frame
            ELSE
              LET out == outs[j]
